@@ -19,6 +19,10 @@ type base struct {
 	sk, pk   []byte
 	msg, ctx []byte
 	sig      []byte // genuine signature of (msg, ctx) made by the internal API
+	// an over-long context (256+k bytes) and a genuine signature for the pair it
+	// aliases when the length byte wraps: context ctxLong[:k], message ctxLong[k:]||msg
+	ctxLong  []byte
+	aliasSig []byte
 	addrnd   []byte
 }
 
@@ -38,7 +42,7 @@ func ctxOf(r *hx.Rng) []byte {
 // base signatures of a run are computed concurrently).
 func newBase(r *hx.Rng, p *pset) *base {
 	sk := keygenWith(p, r.Bytes(p.n), r.Bytes(p.n), r.Bytes(p.n))
-	return &base{p: p, sk: sk, pk: sk[2*p.n:], msg: msgOf(r), ctx: ctxOf(r), addrnd: r.Bytes(p.n)}
+	return &base{p: p, sk: sk, pk: sk[2*p.n:], msg: msgOf(r), ctx: ctxOf(r), addrnd: r.Bytes(p.n), ctxLong: r.Bytes(256 + r.Intn(40))}
 }
 
 func (b *base) finish() {
@@ -47,6 +51,15 @@ func (b *base) finish() {
 		panic("base signature")
 	}
 	b.sig = sig
+	if !b.p.fast {
+		return // the s sets sign slowly; the alias case runs on the six f sets
+	}
+	k := len(b.ctxLong) - 256
+	alias, ok := signWith(b.p, b.sk, append(append([]byte{}, b.ctxLong[k:]...), b.msg...), b.ctxLong[:k], "d")
+	if !ok {
+		panic("alias signature")
+	}
+	b.aliasSig = alias
 }
 
 func flip(r *hx.Rng, b []byte, lo, hi int) []byte {
@@ -158,9 +171,13 @@ func cheap(r *hx.Rng, b *base) []string {
 		vfLine(b, append(append([]byte{}, b.pk...), 0), b.msg, b.ctx, b.sig, "-pklen+1"),
 		vfLine(b, nil, b.msg, b.ctx, b.sig, "-pkempty"),
 		vfLine(b, b.pk, b.msg, r.Bytes(256), b.sig, "-ctx256"),
+
 		fmt.Sprintf("C16|sg|%s|%s|%s|%s|d|-ctx256", p.name, hx.H(b.sk), hx.H(b.msg), hx.H(r.Bytes(256+r.Intn(3)))),
 		fmt.Sprintf("C16|sg|%s|%s|%s|-|d|-sklen", p.name, hx.H(b.sk[:len(b.sk)-1-r.Intn(3)]), hx.H(b.msg)),
 		fmt.Sprintf("C16|sg|%s|%s|%s|-|%s|-sklen", p.name, hx.H(append(append([]byte{}, b.sk...), 7)), hx.H(b.msg), hx.H(b.addrnd)),
+	}
+	if b.aliasSig != nil {
+		out = append(out, vfLine(b, b.pk, b.msg, b.ctxLong, b.aliasSig, "-ctxalias"))
 	}
 	// another parameter set's signature size under this key
 	for _, q := range sets {
